@@ -15,21 +15,21 @@ CHECKS = {
    category="model_checking",
    text="SMT-decided over all 32-bit costs up to the consensus maximum and all serialized stack sizes / item counts below 2^32 (no loop, so no unrolling bound): validity <=> weight <= size+50, padding None <=> valid, annex sufficient, annex minimal off the CompactSize count edge, no panic, conversions round up / monotone / saturate. Translator validated on the repo's own test vectors against the native build on every run.",
    design_ref="DESIGN.md §2 C19",
-   note="trusted: CompactSize model of elements' consensus_encode, iterator-collect model, core integer helper models, rustc MIR, z3/cvc5; outside: stacks >= 4 GiB, costs above CONSENSUS_MAX"),
+   note="trusted: CompactSize model of elements' consensus_encode, iterator-collect model, core integer helper models, rustc MIR, z3/cvc5; outside: stacks >= 4 GiB, costs above CONSENSUS_MAX On a changed tree, a group of obligations whose function the MIR encoder cannot express is printed as `UNEXPLORED: property=<id> ...`, recorded under coverage.unexplored, and does not affect the exit status (none on the unchanged tree)."),
 
  "C07": dict(
    technique="MIR->SMT symbolic execution of NodeBounds::*, LimitError::check_program and BitMachine::for_program (z3 + cvc5 must agree), inductive step per combinator against a recurrence model of the interpreter's peak usage",
    category="model_checking",
    text="SMT-decided over all usize type widths and child bounds: each NodeBounds constructor keeps the invariant `bound >= interpreter peak, or bound > hard limit` (one inductive step per combinator, so it covers programs of any size and shape), never overflows, check_program refuses exactly when one of the seven documented sums exceeds its limit, and for_program allocates at least source+target+extra_cells bits and extra_frames+2 frames without arithmetic overflow. The interpreter's peak usage enters as a recurrence model read off exec_with_tracker; it is validated natively on every run against the real interpreter's verif-hooks high-water marks on 12 concrete programs.",
    design_ref="DESIGN.md §2 C07",
-   note="trusted: the recurrence model of exec_with_tracker (validated natively, not solver-checked: the real interpreter is out of CBMC's reach, see DESIGN.md), models of cmp::max / Try / vec allocation, rustc MIR, z3/cvc5; outside: jets, execution under Kani (layer 1)"),
+   note="trusted: the recurrence model of exec_with_tracker (validated natively, not solver-checked: the real interpreter is out of CBMC's reach, see DESIGN.md), models of cmp::max / Try / vec allocation, rustc MIR, z3/cvc5; outside: jets, execution under Kani (layer 1) On a changed tree, a group of obligations whose function the MIR encoder cannot express is printed as `UNEXPLORED: property=<id> ...`, recorded under coverage.unexplored, and does not affect the exit status (none on the unchanged tree)."),
 
  "C14": dict(
    technique="MIR->SMT symbolic execution of each family's decode tree, encode table, source/target type tables, Display and FromStr (z3 + cvc5 must agree) over symbolic 24-bit strings and symbolic discriminants",
    category="model_checking",
    text="SMT-decided for every bit string of up to 24 bits (longest code: 22) and every discriminant of Core/Elements/Bitcoin: decode is total, a decoded jet re-encodes to exactly the consumed bits (so codes are injective and prefix-free), every jet's code decodes back to it with arbitrary trailing bits, every name parses back, and every Core jet behind the family prefix bit is an Elements jet with identical name and type names. Tables read from MIR are validated against the native encode/decode/Display/FromStr of all 1267 jets on every run. The clauses about the C tables and extern declarations are not applicable (see level_note).",
    design_ref="DESIGN.md §2 C14",
-   note="NOT covered (not applicable to this technique): equality of roots/types/costs with libsimplicity's C tables and arity/types of extern declarations vs C prototypes - static texts across a language boundary, no input to quantify over, C not encodable. Trusted: bit-stream model of BitIter/BitWriter (checked on the real code under C13), rustc MIR, z3/cvc5"),
+   note="NOT covered (not applicable to this technique): equality of roots/types/costs with libsimplicity's C tables and arity/types of extern declarations vs C prototypes - static texts across a language boundary, no input to quantify over, C not encodable. Trusted: bit-stream model of BitIter/BitWriter (checked on the real code under C13), rustc MIR, z3/cvc5. On a changed tree, a jet family whose tables the MIR encoder cannot read is printed as `UNEXPLORED: property=C14 ...`, recorded under coverage.unexplored, and does not affect the exit status (none on the unchanged tree)"),
 
  "C02": dict(
    technique="bounded model checking of the real node decoder: Kani 0.68 -> CBMC 6.11 over #[kani::proof] harnesses, one per node class, bytes/length/position symbolic",
